@@ -16,7 +16,7 @@ def one(patch: str, pids):
     out = {}
     try:
         shutil.copytree("/repo/semantiva", tmp / "semantiva")
-        p = subprocess.run(["patch", "-p1", "--batch", "--silent", "-d", str(tmp), "-i", patch], capture_output=True, text=True)
+        p = subprocess.run(["patch", "-p1", "--batch", "--silent", "-d", str(tmp), "-i", str(Path(patch).resolve())], capture_output=True, text=True)
         if p.returncode:
             return patch, None, p.stdout + p.stderr
         for pid in pids:
